@@ -410,7 +410,7 @@ where
 
                 this.waiter.close();
                 this.inner.set(InnerCheckoutConnecting::Connected);
-                Poll::Ready(Ok(register_connected(this.pool, *this.token, connection)))
+                Poll::Ready(Ok(checked_out(this.pool, *this.token, connection)))
             }
             CheckoutConnectingProj::Connecting(connector) => {
                 let result = ready!(connector.poll_connector(
@@ -479,6 +479,30 @@ where
     }
 }
 
+/// Wrap a connection which was taken out of the pool.
+///
+/// A connection which can be shared is still in the pool (see `PoolInner::pop`), so this copy
+/// is not returned to the pool when dropped.
+fn checked_out<C, B>(poolref: &PoolRef<C, B>, token: Token, connection: C) -> Pooled<C, B>
+where
+    C: PoolableConnection<B>,
+    B: Send + 'static,
+{
+    if connection.can_share() {
+        Pooled {
+            connection: Some(connection),
+            token: Token::zero(),
+            pool: PoolRef::none(),
+        }
+    } else {
+        Pooled {
+            connection: Some(connection),
+            token,
+            pool: poolref.clone(),
+        }
+    }
+}
+
 /// Register a connection with the pool referenced here.
 fn register_connected<C, B>(
     poolref: &PoolRef<C, B>,
@@ -532,7 +556,8 @@ where
         // A connection which was taken out of the pool for this checkout, but which was never
         // handed out (the checkout was dropped before it was polled) goes back to the pool.
         if let Some(connection) = self.as_mut().project().connection.take() {
-            if connection.is_open() {
+            // (a connection which can be shared never left the pool)
+            if connection.is_open() && !connection.can_share() {
                 if let Some(mut pool) = self.pool.lock() {
                     trace!("unused connection returned to pool");
                     pool.push(self.token, connection, self.pool.clone());
